@@ -41,7 +41,7 @@ from .pyobj import MTr, Program, is_self, is_self_attr, is_super, falls_through,
 from .pybytes import NAT, INT, PROP, BOOL, BYTES, NONE, POISON, OPT, is_opt, opt_of, lname, par, indent, LEAN_RESERVED
 from .pyexpr import Untranslatable
 
-REF, REFS, SLICE, SELF, STR = 'R', 'List R', 'slice', 'self', 'str'
+REF, REFS, SLICE, SELF, STR, ANY = 'R', 'List R', 'slice', 'self', 'str', 'any'
 
 
 def STATE(c):
@@ -70,10 +70,14 @@ class SProgram(Program):
             return t
         if t == STR:
             return 'Bytes'
+        if t == ANY:
+            return 'Unit'
         if t == SELF or t == NONE:
             return 'Unit'
         if is_opt(t):
             return f'Option {tpar(self.lean_ty(opt_of(t)))}'
+        if t.startswith('union:'):
+            return self.externs['unions'][t[6:]]['lean']
         if t.startswith('state:'):
             return self.lean_ty(self.classes[t[6:]]['value'])
         if t.startswith('obj:'):
@@ -180,6 +184,7 @@ class STr(MTr):
         self.reads = 0
         self.loops = []
         self.in_prop = []
+        self.flags = {}               # local name -> True / False while it holds that literal (decides `if flag:` statically)
         self.unwrapped = {}           # source text of an optional expression -> (lean name, type) inside `if <expr> is not None`
         for n in ast.walk(fn):
             if isinstance(n, (ast.FunctionDef, ast.Lambda, ast.Global, ast.Nonlocal, ast.While, ast.Try, ast.With, ast.Break, ast.Continue, ast.Yield,
@@ -239,7 +244,9 @@ class STr(MTr):
         return pybytes.BTr.truth(self, et)
 
     def static(self, e):
-        """True / False when the test is decided by the declared types, else None"""
+        """True / False when the test is decided by the declared types (or a local holding a literal bool), else None"""
+        if isinstance(e, ast.Name) and e.id in self.flags:
+            return self.flags[e.id]
         if isinstance(e, ast.UnaryOp) and isinstance(e.op, ast.Not):
             s = self.static(e.operand)
             return None if s is None else not s
@@ -284,6 +291,39 @@ class STr(MTr):
             raise Untranslatable('string constant')
         if isinstance(e, ast.Name) and e.id in self.env and self.env[e.id] not in (POISON, BOOL):
             return lname(e.id), self.env[e.id]
+        if isinstance(e, ast.IfExp) and not self.nohoist and ast.dump(e.test) != ast.dump(e.body):
+            save = (list(self.pre), self.fresh, self.reads)
+            try:
+                return super().expr(e)
+            except Untranslatable as err:
+                if 'conditionally' not in str(err):
+                    raise
+                self.pre, self.fresh, self.reads = save
+            # a branch calls a method of self / a built-in that can raise: the conditional becomes a step of its own
+            if self.reads:
+                raise Untranslatable('self is read before a conditional call in the same statement')
+            c = self.truth(self.expr(e.test))
+
+            def br(x):
+                outer, self.pre = self.pre, []
+                try:
+                    v, t = self.stored(self.expr(x))
+                    p = self.take_pre()
+                finally:
+                    self.pre = outer
+                return p, v, t
+            pa, va, ta = br(e.body)
+            pb, vb, tb = br(e.orelse)
+            if {ta, tb} == {NAT, INT}:
+                va, vb = (self.cast((va, ta)), self.cast((vb, tb)))
+                ta = tb = INT
+            if ta != tb:
+                raise Untranslatable(f'conditional expression of types {ta} / {tb}')
+            x = self.tmp('r')
+            a = self.wrap(pa, f'(self, some {par(va)})')
+            b = self.wrap(pb, f'(self, some {par(vb)})')
+            self.mutate('bindS', x, f'if {c} then\n{par(a)}\nelse\n{par(b)}')
+            return ((f'({x} = true)', PROP) if ta == BOOL else (x, ta))
         if isinstance(e, ast.IfExp) and ast.dump(e.test) == ast.dump(e.body):
             x, xt = self.expr(e.test)
             if xt == OPT(NAT):
@@ -394,16 +434,63 @@ class STr(MTr):
                 raise Untranslatable(f'{f.id} call shape')
             if f.id == 'bool' and len(e.args) == 1 and not kws:
                 return self.truth(self.expr(e.args[0])), PROP
+            if (f.id == 'int' and len(e.args) == 2 and not kws and isinstance(e.args[1], ast.Constant) and e.args[1].value == 2
+                    and isinstance(e.args[0], ast.Call) and isinstance(e.args[0].func, ast.Attribute) and e.args[0].func.attr == 'to01'
+                    and not e.args[0].args and not e.args[0].keywords):
+                v, t = self.expr(e.args[0].func.value)
+                if t != BITS:
+                    raise Untranslatable('to01() of a non-bitarray')
+                return self.hoist(f'Py.intOfBits? {v}', 'int'), NAT
+            d = self.prog.classes.get(f.id)
+            if d is not None and d.get('ctor') is not None and not kws:
+                return self.construct(f.id, d, e)
             if f.id == 'isinstance':
                 s = self.static(e)
                 if s is None:
                     raise Untranslatable('isinstance')
                 return ('True' if s else 'False'), PROP
+        rf = self.prog.externs.get('ref_functions') or {}
+        if (isinstance(f, ast.Attribute) and isinstance(f.value, ast.Name) and f.value.id in rf and f.attr == rf[f.value.id] and f.value.id not in self.env
+                and e.args and not e.keywords and isinstance(e.args[0], ast.Call) and isinstance(e.args[0].func, ast.Attribute)
+                and e.args[0].func.attr == 'begin_parse' and not e.args[0].args and not e.args[0].keywords
+                and all(isinstance(a, ast.Name) and a.id in self.py_params for a in e.args[1:])):
+            # declared: the result is a function of the referenced cell (and the plain parameters passed on) - here: that cell
+            x, t = self.expr(e.args[0].func.value)
+            if t != REF:
+                raise Untranslatable(f'{f.value.id}.{f.attr} of a {t}')
+            return x, REF
         if isinstance(f, ast.Attribute):
             r = self.attr_call(e)
             if r is not None:
                 return r
         return pybytes.BTr.call(self, e, key)
+
+    def construct(self, cname, d, e):
+        """`C(args)` for a declared record class: ctor = dict(shape='args' | 'tuple', fields=[(field, type)], rest={field: lean})"""
+        c = d['ctor']
+        args = list(e.args)
+        if c['shape'] == 'tuple':
+            if len(args) != 1 or not isinstance(args[0], ast.Tuple):
+                raise Untranslatable(f'{cname}(...) is not called with a tuple literal')
+            args = list(args[0].elts)
+        if len(args) != len(c['fields']):
+            raise Untranslatable(f'{cname}(...) argument count')
+        for a, fw in zip(args, c['fields']):
+            if fw is None and not (isinstance(a, ast.Attribute) and is_self(a.value)):
+                raise Untranslatable(f'{cname}(...): ignored argument is not a plain attribute read')
+        items = []
+        for a, fw in zip(args, c['fields']):
+            if fw is None:
+                continue                          # a declared-irrelevant argument (not evaluated: must be a plain attribute read)
+            fld, want = fw
+            v, t = self.stored(self.expr(a))
+            if t == NAT and want == INT:
+                v, t = self.cast((v, t)), INT
+            if t != want:
+                raise Untranslatable(f'{cname}: field {fld} gets a {t}, declared {want}')
+            items.append(f'{fld} := {v}')
+        items += [f'{k} := {v}' for k, v in c.get('rest', {}).items()]
+        return f'({{ {", ".join(items)} }} : {d["lean"]})', OBJ(cname)
 
     def mutate(self, kind, name, term):
         """a state-changing step hoisted before the current statement"""
@@ -440,6 +527,10 @@ class STr(MTr):
         # a method of a sub-object held in an attribute: self._bits.extend(..), self.bits.append(..)
         if is_self_attr(v):
             attr, t = self.attr_decl(v.attr)
+            if attr is not None and t.startswith('state:') and f.attr == 'copy' and not e.args and not e.keywords \
+                    and self.prog.externs.get('copy=value'):
+                txt, vt, _ = self.self_attr(v.attr)      # declared: a copy holds the same bits
+                return txt, vt
             if attr is not None and t.startswith('state:'):
                 return self.sub_call(e, attr, t[6:], f.attr, r0)
             if attr is not None and t == REFS and f.attr == 'append' and len(e.args) == 1 and not e.keywords:
@@ -451,17 +542,52 @@ class STr(MTr):
                 fld = self.decl['fields'][attr]
                 self.mutate('set', None, f'{{ self with {fld} := self.{fld} ++ [{x}] }}')
                 return '()', NONE
+        if isinstance(v, ast.Name) and self.env.get(v.id, '').startswith('obj:') and v.id not in self.py_params:
+            st = self.prog.classes[self.env[v.id][4:]].get('setters', {}).get(f.attr)
+            if st is not None and not e.keywords and len(e.args) == len(st['args']):
+                vals = []
+                for a, want in zip(e.args, st['args']):
+                    x, t = self.stored(self.expr(a))
+                    if t == NAT and want == INT:
+                        x, t = self.cast((x, t)), INT
+                    if t != want:
+                        raise Untranslatable(f'{f.attr}: argument of type {t}, declared {want}')
+                    vals.append(x)
+                self.pre.append(('setl', lname(v.id), f'{{ {lname(v.id)} with {st["field"]} := {st["value"].format(*vals)} }}'))
+                return '()', NONE
         if self.recv_self(v, r0):
             if self.value_ty is None or True:
                 return self.self_call(e, self.cls, f.attr, r0)
         base, bt = self.expr(v)
         if bt == BITS and f.attr == 'tobytes' and not e.args and not e.keywords:
             return f'(bitsToBytes {base})', BYTES
+        if bt.startswith('obj:') and self.prog.classes[bt[4:]].get('kind') == 'state' and not isinstance(v, ast.Name):
+            # a method of a TEMPORARY object of a state class (`self.copy().load_address()`): its state is dropped
+            args = self.prog.coerce_args(bt[4:], f.attr, self.typed_args(e))
+            info = self.prog.method(bt[4:], f.attr, [t for _, t in args])
+            term = f'({info["lean"]} {" ".join(par(x) for x, _ in args)}'.rstrip() + f' {base}).2'
+            if info['ret'] in (SELF, NONE):
+                raise Untranslatable(f'{f.attr} on a temporary object returns no value')
+            x = self.hoist(term, 'r')
+            return ((f'({x} = true)', PROP) if info['ret'] == BOOL else (x, info['ret']))
         if bt == STR and f.attr == 'encode' and not e.args and not e.keywords and self.prog.externs.get('str=utf8'):
             return base, BYTES                    # declared: a str travels as its UTF-8 bytes
         if bt == BYTES and f.attr == 'decode' and not e.args and not e.keywords and self.prog.externs.get('str=utf8'):
             return base, STR
         raise Untranslatable(f'call of .{f.attr} on a {bt}')
+
+    def with_defaults(self, cls, name, args):
+        """missing trailing arguments are filled from literal int defaults"""
+        _, fn = self.prog.find_method(cls, name)
+        names = [a.arg for a in fn.args.args[1:]]
+        ds = fn.args.defaults
+        out = list(args)
+        for i in range(len(out), len(names)):
+            k = i - (len(names) - len(ds))
+            if k < 0 or not (isinstance(ds[k], ast.Constant) and isinstance(ds[k].value, int) and not isinstance(ds[k].value, bool) and ds[k].value >= 0):
+                raise Untranslatable(f'{name}: missing argument without a literal default')
+            out.append((str(ds[k].value), NAT))
+        return out
 
     def typed_args(self, e):
         if e.keywords:
@@ -478,7 +604,7 @@ class STr(MTr):
 
     def self_call(self, e, cls, name, r0, args=None):
         args = self.typed_args(e) if args is None else args
-        args = self.prog.coerce_args(cls, name, args)
+        args = self.prog.coerce_args(cls, name, self.with_defaults(cls, name, args))
         info = self.prog.method(cls, name, [t for _, t in args])
         if r0:
             raise Untranslatable('self is read before a mutating call in the same statement')
@@ -556,6 +682,8 @@ class STr(MTr):
                 body = f'Py.bindS ({t}) fun self {name} =>\n{body}'
             elif kind == 'set':
                 body = f'let self := {t}\n{body}'
+            elif kind == 'setl':
+                body = f'let {name} := {t}\n{body}'
             else:
                 body = f'if ¬ {t} then (self, none) else\n{body}'
         return body
@@ -571,6 +699,8 @@ class STr(MTr):
         if isinstance(s, ast.Expr) and isinstance(s.value, ast.Constant):
             return self.block(rest, kont)
         if isinstance(s, ast.Pass):
+            return self.block(rest, kont)
+        if isinstance(s, ast.ImportFrom) and all((a.asname or a.name) in (self.prog.externs.get('ref_functions') or {}) for a in s.names):
             return self.block(rest, kont)
         if isinstance(s, ast.Raise):
             return '(self, none)'
@@ -622,6 +752,10 @@ class STr(MTr):
                 raise Untranslatable('a builder is bound to a local name')
             pre = self.take_pre()
             self.env[tg.id] = t
+            if isinstance(value, ast.Constant) and isinstance(value.value, bool):
+                self.flags[tg.id] = value.value
+            else:
+                self.flags.pop(tg.id, None)
             if pre and pre[-1][0] in ('bind', 'bindS') and pre[-1][1] == v:
                 pre = pre[:-1] + [(pre[-1][0], lname(tg.id), pre[-1][2])]
                 return self.wrap(pre, self.block(rest, kont))
@@ -671,9 +805,11 @@ class STr(MTr):
             live = s.body if st else s.orelse
             return self.block(list(live) + (list(rest) if falls_through(live) else []), kont)
         env0 = dict(self.env)
+        flags0 = dict(self.flags)
 
         def branch(stmts, k, upd=None):
             self.env = dict(env0)
+            self.flags = dict(flags0)
             if upd:
                 self.env.update(upd)
             r = par(self.block(stmts, k))
@@ -748,6 +884,8 @@ class STr(MTr):
     def ret(self, s):
         if s.value is None or (isinstance(s.value, ast.Constant) and s.value.value is None):
             self.ret_types.append(NONE)
+            if self.force_ret and self.force_ret.startswith('union:'):
+                return f'(self, some {self.prog.externs["unions"][self.force_ret[6:]]["of"][NONE]})'
             if self.force_ret and is_opt(self.force_ret):
                 return '(self, some none)'
             return '(self, some ())'
@@ -759,6 +897,11 @@ class STr(MTr):
         self.ret_types.append(t)
         if t == SELF or (t == NONE and not self.force_ret):
             return self.wrap(pre, '(self, some ())')
+        if self.force_ret and self.force_ret.startswith('union:') and t != self.force_ret:
+            inj = self.prog.externs['unions'][self.force_ret[6:]]['of'].get(t)
+            if inj is None:
+                raise Untranslatable(f'return of a {t} in a method returning {self.force_ret}')
+            return self.wrap(pre, f'(self, some {par(inj if t == NONE else inj + " " + par(v))})')
         if self.force_ret and t != self.force_ret:
             if (t, self.force_ret) == (NAT, INT):
                 v = f'(({v} : Nat) : Int)'
@@ -769,6 +912,12 @@ class STr(MTr):
             else:
                 raise Untranslatable(f'returns of different types ({t}, {self.force_ret})')
         return self.wrap(pre, f'(self, some {par(v)})')
+
+    def union_of(self, kinds):
+        for name, u in (self.prog.externs.get('unions') or {}).items():
+            if len(kinds) > 1 and set(kinds) <= set(u['of']) | {f'union:{name}'}:
+                return f'union:{name}'
+        return None
 
     def end(self):
         self.ret_types.append(NONE)
@@ -788,6 +937,10 @@ class STr(MTr):
             rt = INT
             if self.force_ret != INT:
                 retry = INT
+        elif self.union_of(kinds) is not None:
+            rt = self.union_of(kinds)
+            if self.force_ret != rt:
+                retry = rt
         elif len(kinds) == 2 and NONE in kinds and SELF not in kinds and not any(is_opt(k) for k in kinds):
             rt = OPT((kinds - {NONE}).pop())
             if self.force_ret != rt:
